@@ -539,8 +539,11 @@ func (b *Buffer) cleanup() {
 					}
 				}()
 
-				// wait for the timer to expire
-				<-timer.C
+				// wait for the timer to expire (or for the buffer to be closed: the wait must not outlive it)
+				select {
+				case <-timer.C:
+				case <-b.ctx.Done():
+				}
 			}()
 		}
 	)
